@@ -39,8 +39,24 @@ ALLOWED_DUNDERS = {("BoolParameter", "__repr__"): "int-backed boolean shows as T
 CACHE_DECOS = {"lru_cache", "cache", "functools.lru_cache", "functools.cache", "cached", "memoize"}
 
 
+def mixin_name(prog) -> str:
+    """The raw-value mixin: the package class that every value class lists first among its bases (found by role)."""
+    cands = None
+    for cname in BASES:
+        if cname not in prog.classes:
+            continue
+        m = [b for b in prog.mro(cname)[1:] if b in prog.classes]
+        cands = set(m) if cands is None else cands & set(m)
+    if cands:
+        for b in prog.mro("IntParameter")[1:]:
+            if b in cands:
+                return b
+    return "_Parameter"
+
+
 def base_table(ctx: Ctx):
     prog = ctx.prog
+    MIX = mixin_name(prog)
     for cname, base in BASES.items():
         site = f"{CM}::{cname}::bases"
         ci = prog.classes.get(cname)
@@ -49,7 +65,7 @@ def base_table(ctx: Ctx):
             continue
         mro = prog.mro(cname)
         builtins = [b for b in mro if b in ("bytes", "int", "float", "str", "bytearray", "bool", "complex", "object", "dict", "list", "tuple")]
-        ok = len(mro) >= 3 and mro[1] == "_Parameter" and builtins[:1] == [base] and len([b for b in builtins if b != "object"]) == 1
+        ok = len(mro) >= 3 and mro[1] == MIX and builtins[:1] == [base] and len([b for b in builtins if b != "object"]) == 1
         ctx.decide(ok, "R20.1", site, f"{cname}(_Parameter, {base})",
                    f"{cname} has MRO {mro}; it must be the raw-value mixin first, then exactly the built-in `{base}`",
                    where=f"space_packet_parser/{CM}:{ci.node.lineno}")
@@ -113,7 +129,8 @@ def constructor(ctx: Ctx):
 
 def hooks(ctx: Ctx):
     prog = ctx.prog
-    classes = list(BASES) + ["_Parameter", "CCSDSPacket", "RawPacketData"]
+    MIX = mixin_name(prog)
+    classes = list(BASES) + [MIX, "CCSDSPacket", "RawPacketData"]
     for cname in classes:
         ci = prog.classes.get(cname)
         site = f"{cname}::pickle-hooks"
@@ -158,7 +175,7 @@ def emulate_value_pickle(ctx: Ctx, cname: str, defined):
     prog = ctx.prog
     if any(d in ("__reduce__", "__reduce_ex__", "__copy__", "__deepcopy__", "__getnewargs_ex__") for d in defined):
         return None
-    targets = list(BASES) if cname == "_Parameter" else [cname]
+    targets = list(BASES) if cname == mixin_name(prog) else [cname]
     for vc in targets:
         base = BASES[vc]
         nat = NATIVE[base]
@@ -247,7 +264,7 @@ def emulate_copy(ctx: Ctx, cname: str, defined, slots):
     prog = ctx.prog
     if slots:
         return None
-    if cname in BASES or cname == "_Parameter":
+    if cname in BASES or cname == mixin_name(prog):
         return emulate_value_pickle(ctx, cname, defined)
     if cname == "CCSDSPacket" and all(d in ("__copy__", "__deepcopy__") for d in defined):
         return emulate_packet_copy(ctx, defined)
@@ -296,7 +313,7 @@ def _hasattr(prog, o, name):
 
 def dunders(ctx: Ctx):
     prog = ctx.prog
-    for cname in list(BASES) + ["_Parameter"]:
+    for cname in list(BASES) + [mixin_name(prog)]:
         ci = prog.classes.get(cname)
         if ci is None:
             continue
